@@ -171,6 +171,36 @@ def Insert.render (i : Insert) : List Tok :=
   k tkInsert :: k tkInto :: renderName i.ks i.table
     (k tkLparen :: renderCols i.cols (idt i.valuesKw :: k tkLparen :: i.vals.renderElems (k tkRparen :: i.tail)))
 
+/-- the assignments of an UPDATE's SET clause, each `column = term` -/
+inductive Assigns where
+  | nil
+  | cons (col : Ident) (t : Term) (as : Assigns)
+
+mutual
+def Assigns.renderElems : Assigns → List Tok → List Tok
+  | .nil, rest => rest
+  | .cons c t as, rest => idt c :: k tkEqual :: t.render (as.renderTail rest)
+def Assigns.renderTail : Assigns → List Tok → List Tok
+  | .nil, rest => rest
+  | .cons c t as, rest => k tkComma :: idt c :: k tkEqual :: t.render (as.renderTail rest)
+end
+
+def Assigns.nonIdem : Assigns → Bool
+  | .nil => false
+  | .cons _ t as => t.nonIdem || as.nonIdem
+
+/-- `UPDATE [ks.]table SET c = term, … <tail>`; `setKw` is the word SET as written, `tail` whatever follows the last
+assignment (WHERE …, IF …, `;`, end of input) -/
+structure Update where
+  ks : Option Ident
+  table : Ident
+  setKw : Ident
+  ops : Assigns
+  tail : List Tok
+
+def Update.render (u : Update) : List Tok :=
+  k tkUpdate :: renderName u.ks u.table (idt u.setKw :: u.ops.renderElems u.tail)
+
 /-- the lexer `L` yields the tokens `ts` from position `p` on, one position per token -/
 def At (L : Lexer) : Nat → List Tok → Prop
   | _, [] => True
